@@ -35,10 +35,14 @@ ASSUMPTIONS = ['K is stricter than the oracle: it also compares the exception cl
                'scripts are Latin-1 strings; str.format fields outside the modelled fragment are skipped (PUnmodelled)',
                'the theorems are stated over statements given as term lists (what parse_terms returns for the two sides); that the lexer '
                'produces the terms written in the script is property C01; K runs the whole pipeline from the script text',
-               'span labels are distinct (locate(span[i]) = i); exec of the generated class text is CPython\'s (observed, not modelled)',
+               'lengths are >= 0: negative explicit lags= / leads= give malformed periods in fsic ([(-1, 5)], len 7, solve() returning Nones for lags=-1, n=6); '
+               'the model mirrors them (K), the oracle and the range theorems with `0 <= lags, leads` do not speak about them',
+               'explicit lags= / leads= SMALLER than the script\'s are the caller\'s override of the guard (reads wrap around silently, as in C04): the oracle judges '
+               'the default range against the class\'s own LAGS / LEADS only; span labels may repeat (the defaults are positions); exec of the class text is CPython\'s',
                'options are built-in ints or None']
 EXHAUSTIVE = {'quick': False, 'thorough': False}
-CASE_TIMEOUT = 60
+CASE_TIMEOUT = 90
+HANDLES_TIMEOUT = True          # a watchdog timeout (loaded machine, fresh-process helper) is no verdict: the oracle is silent on it
 SOURCES = ['parser.py', 'core/interfaces.py']
 OWN = ('ParserError', 'SymbolError', 'IndentationError')
 
@@ -124,6 +128,7 @@ def expectation(ast):
 
 
 SIG_SPACING = 'C03|double-definition|same-equation-different-spacing'
+SIG_CHAINED = 'C03|endogenous-iff-assigned|chained-or-semicolon-assignment'
 
 
 def _layout_norm(line):
@@ -270,12 +275,12 @@ def _fresh_steps(steps):
             '    out.append(json.loads(buf.decode()))\n'
             'print(json.dumps(out))\n') % os.path.dirname(os.path.dirname(os.path.abspath(__file__)))
     try:
-        p = subprocess.run([sys.executable, '-c', code], input=_json.dumps(steps), capture_output=True, text=True, timeout=45)
-    except subprocess.TimeoutExpired:
+        p = subprocess.run([sys.executable, '-c', code], input=_json.dumps(steps), capture_output=True, text=True, timeout=25)
+        if p.returncode != 0:
+            return None                                # fork / memory trouble of the helper: a skipped replay, not a verdict
+        return _json.loads(p.stdout.strip().split('\n')[-1])
+    except (subprocess.TimeoutExpired, ValueError, OSError):
         return None                                    # a loaded machine: no fresh replay for this history (not a verdict)
-    if p.returncode != 0:
-        return {'fresh_error': p.stderr[-300:]}
-    return _json.loads(p.stdout.strip().split('\n')[-1])
 
 
 def impl(case):
@@ -431,6 +436,11 @@ def oracle_one(case, o):
             out.append(_f('leads', 'symbols', 'LEADS = %r, the symbols and options give %r' % (o['leads'], ld)))
     if exp is not None and 'accept' in exp:
         acc = exp['accept']
+        if exp.get('chained') and (o['endo'] != acc['endo'] or o['exo'] != acc['exo']):
+            # kept finding: a second assignment target inside one statement is written by the code but classified exogenous
+            out.append({'sig': SIG_CHAINED, 'what': 'a name assigned by a chained / semicolon assignment is not endogenous: ENDOGENOUS %r EXOGENOUS %r, '
+                        'the statement assigns %r' % (o['endo'], o['exo'], acc['endo'])})
+            acc = dict(acc, endo=o['endo'], exo=o['exo'])
         if True:
             for key, cl in (('endo', 'endogenous-iff-assigned'), ('exo', 'exogenous-otherwise'), ('par', 'parameter-iff-braces'), ('err', 'error-iff-angle')):
                 if o[key] != acc[key]:
@@ -454,8 +464,8 @@ def oracle_one(case, o):
     if isinstance(lg, int) and isinstance(ld, int) and lg >= 0 and ld >= 0:
         want = feasible(n, lg, ld)
         if n == 0:
-            if o.get('range_exc') != 'SolutionError':
-                out.append(_f('default-range', 'empty-span', 'empty span: expected SolutionError, got %r' % (o.get('range_exc') or o.get('range'))))
+            if o.get('range'):                       # (which exception an empty span raises is not the property's business; K compares it)
+                out.append(_f('default-range', 'empty-span', 'empty span, yet periods are returned: %r' % (o.get('range'),)))
         elif want:
             if o.get('range') != want:
                 out.append(_f('default-range', 'periods', 'default range %r, feasible periods %r' % (o.get('range', o.get('range_exc')), want)))
@@ -474,6 +484,8 @@ def oracle_one(case, o):
 
 
 def oracle(case, o):
+    if o.get('timeout'):
+        return []
     if case.get('k') != 'history':
         return oracle_one(case, o)
     out = []
@@ -487,8 +499,6 @@ def oracle(case, o):
             out.append(_f('history', 'step-differs-from-fresh-process',
                           'step %d (%r) gives another result after the earlier steps than in a fresh process (differs in %s)'
                           % (j, st['script'][:60], ','.join(keys))))
-    if isinstance(fresh, dict):
-        out.append(_f('history', 'fresh-helper-failed', 'the fresh-process helper failed: %s' % fresh.get('fresh_error', '')[:200]))
     return out
 
 
@@ -622,6 +632,9 @@ CORPUS = [
     ('Y = Y(1)', R('SymbolError')), ('f = f(X) + 1', R('SymbolError')),
     ('Y = exp(X) + exp(Z) + log(exp(W))\nZ = exp(Y)', A(['Y', 'Z'], ['X', 'W'], [], [])),       # repeated calls: one FUNCTION symbol
     ('{p} = X', R('ParserError')), ('2 = X', R('ParserError')),
+    # Python assigns Z / X here as well (kept finding, also C01's): they stay EXOGENOUS
+    ('Y = Z = X[-1]', dict(A(['Y', 'Z'], ['X'], [], [], 1, 0), chained=True)),
+    ('Y = X[-1] ; X = 3', dict(A(['Y', 'X'], [], [], [], 1, 0), chained=True)),
     # unusual left-hand sides (check_syntax=False accepts them): the variable on the left is what the equation assigns
     ('{a}*Y = X', A(['Y'], ['X'], ['a'], [])), ('log(Y) = X', A(['Y'], ['X'], [], [])), ("Y['2000'] = X", A(['Y'], ['X'], [], [])),
 
